@@ -21,14 +21,17 @@ RULES = ["LEFT_PARENTHESIS", "RIGHT_PARENTHESIS", "QUOTED_STRING", "OP", "BOOLOP
 
 class C07(Prop):
     id = "C07"
-    lean_modules = ["PkgProofs.Props.C07"]
+    lean_modules = ["PkgProofs.Props.C07", "PkgProofs.Props.C07Layout"]
     generated = ["MarkerTok"]
     theorems = ["C07.groups_is_or_of_ands", "C07.eval_op_dispatch", "C07.undefined_comparison_iff", "C07.either_side",
                 "C07.evalAtom_refines", "C07.extra_normalised_both_sides", "C07.extra_spelling_irrelevant",
                 "C07.env_effective", "C07.buildEnv_ok", "C07.evaluate_refines", "C07.pure_of_effective_env",
                 "C07.parse_precedence", "C07.parse_precedence_char", "C07.atomSem_normAtom", "C07.evaluate_lst",
                 "C07.marker_evaluate_refines", "C07.marker_of_text_refines", "C07.constructed_marker_refines", "MkWf.parse_wf", "MkLex.lex", "MkLexP.parse_spell_print",
-                "MkParse.parse_print", "MkParse.formulaOf_lst", "MkParse.fOfL_norm"]
+                "MkParse.parse_print", "MkParse.formulaOf_lst", "MkParse.fOfL_norm",
+                "C07.marker_parse_render_layout", "C07.marker_parse_render_lex", "C07.formulaOf_flat", "C07.wf_atoms_canonical",
+                "C07.mkMarker_layout", "C07.eval_layout_independent", "C07.marker_of_layout_refines",
+                "MkLay.parse_renderE", "MkLay.parseItem_lay", "MkLay.matchFin_tok", "ReqMk.fuel_enough"]
     rule = ("random and/or formulas (depth <= 6, flat mixed chains 'a or b and c or d', redundant parentheses to depth 4, "
             "both operand orders, both quote styles, PEP 345 dotted spellings, all ten operators, literals over the PEP 508 "
             "string alphabet) x environments (version-like and non-version-like values per variable, extra needing "
@@ -38,10 +41,11 @@ class C07(Prop):
                "(Mk.Ext); in the correspondence their answers for the atoms at hand are computed on the real code and passed as data",
                "ast.literal_eval of a QUOTED_STRING token as modelled by Mk.pyStrLit (escape decoding; \\N{...} not modelled)",
                "CPython re: leftmost alternative / backtracking order and \\b as modelled by Mk.matchFin (word table measured)"]
-    partial = ["character-level lexing is proved for the canonical layout (single spaces, canonical variable names: "
-               "parse_precedence_char, marker_of_text_refines); other layouts (extra white space, no white space, PEP 345 "
-               "spellings) are tied by the correspondence check (mk.eval on rendered layouts, mk.match on rule x position); "
-               "parse_precedence covers every layout at token level",
+    partial = ["character-level parsing is proved for every layout (marker_parse_render_layout: any white-space runs of space/tab "
+               "wherever the tokenizer admits them, an optional final newline, either quote style per literal, every VARIABLE spelling "
+               "process_env_var accepts, any amount of parentheses) of formulas whose literals contain no backslash/CR/LF/NUL/surrogate "
+               "and not the chosen delimiter; not covered by a theorem, only by the correspondence: literals with backslash escapes, "
+               "and what the parser does with texts that are not a layout of any formula (rejection)",
                "comparisons of two variables or of two literals are outside the statement; the model mirrors what the code does "
                "with them (correspondence only), the refinement theorems assume one variable per comparison",
                "recursion depth: the model's fuel is linear in the input length; CPython's RecursionError on ~330 nested "
